@@ -206,26 +206,6 @@ func c14(c *Ctx) {
 	c.Extra["node_types_seen"] = len(typesSeen)
 }
 
-func bucket(n int) int {
-	for _, b := range []int{4, 8, 16, 32, 64, 128, 1 << 30} {
-		if n < b {
-			return b
-		}
-	}
-	return 0
-}
-
-func joinInts(xs []int) string {
-	parts := make([]string, len(xs))
-	for i, x := range xs {
-		parts[i] = fmt.Sprint(x)
-	}
-	if len(parts) == 0 {
-		return "-"
-	}
-	return strings.Join(parts, ",")
-}
-
 // c14Judge checks the full-walk trace against the reflection dump: every node entered exactly
 // once, parent before children, one f(nil) per node after all of its descendants' events.
 func c14Judge(d *Dumper, tr c14Trace) string {
